@@ -134,7 +134,7 @@ def gen_bank(rng):
     kind = rng.choice(BANKS)
     nyq = rate // 2
     nf = rng.choice((1, 1, 2, 2, 3, 4))
-    if rng.random() < 0.06:
+    if rng.random() < 0.03:
         nf = rng.choice((8, 13, 23, 40))  # realistic bank sizes, rarely (cost grows with the number of filters)
     low = rng.choice((0.0, 20.0, 100.0, float(rng.randrange(0, nyq // 4))))
     span_min = nyq // 8
